@@ -17,9 +17,62 @@ func configs() []*sched.Config {
 	var cfgs []*sched.Config
 	for _, sc := range conch.Scenarios() {
 		sc := sc
-		cfgs = append(cfgs, &sched.Config{Name: sc.Name, Body: func(r *sched.Run) { conch.Run(sc, r) }})
+		cfgs = append(cfgs, &sched.Config{Name: sc.Name, MaxBound: sc.MaxBound, Body: func(r *sched.Run) { conch.Run(sc, r) }})
 	}
 	return cfgs
+}
+
+// ppCounters: what the round 4 family (PersistPrivate as a thread body) consists of.
+func ppCounters() map[string]any {
+	n, calls, layers, empty, viaDAO, mixed, twoLayer, flushing := 0, 0, 0, 0, 0, 0, 0, 0
+	for _, sc := range conch.Scenarios() {
+		has, fl := false, false
+		for _, ops := range sc.Threads {
+			for _, o := range ops {
+				switch o.Kind {
+				case "pp":
+					has = true
+					calls++
+					layers += len(o.Privs)
+					for _, l := range o.Privs {
+						if len(l) == 0 {
+							empty++
+						}
+					}
+				case "persist", "persist2":
+					fl = true
+				}
+			}
+		}
+		if fl {
+			flushing++
+		}
+		if !has {
+			continue
+		}
+		n++
+		if sc.ViaDAO {
+			viaDAO++
+		}
+		if sc.Class2 != 0 {
+			mixed++
+		}
+		if sc.Layers == 2 {
+			twoLayer++
+		}
+	}
+	return map[string]any{
+		"r4_family":                         "persist-private (scenarios pp-*, pp3-*: schedules and distinct observations of each in per_config_at_last_bound)",
+		"r4_pp_scenarios":                   n,
+		"r4_pp_calls":                       calls,
+		"r4_pp_private_layers":              layers,
+		"r4_pp_empty_private_layers":        empty,
+		"r4_pp_scenarios_via_dao":           viaDAO,
+		"r4_pp_scenarios_both_key_classes":  mixed,
+		"r4_pp_scenarios_two_shared_layers": twoLayer,
+		"r4_scenarios_with_flush_oracle":    flushing,
+		"r4_oracles":                        "flush-not-a-batch-boundary (third porcupine model over writes + what the hook stores below the shared layers received), flush-outside-persist",
+	}
 }
 
 func TestCheck(t *testing.T) {
@@ -30,12 +83,16 @@ func TestCheck(t *testing.T) {
 	sched.RunCheck(r, cfgs, sched.CheckOpts{
 		MaxBound:  vk.Pick(r, 3, 4),
 		JobMillis: vk.Pick(r, 1500, 4000),
-		What:      "all schedules of Persist + reader (Get, Seek, SeekAsync) + writer (Put, Delete, PutChangeSet) threads on one shared MemCachedStore up to the preemption bound; every history checked for linearizability (porcupine v1.3.0) against an ordered map (Seek = atomic range read, SeekAsync = atomic range read within the SeekAsync CALL, PutChangeSet = atomic multi-write, Persist = no-op)",
+		Extra:     ppCounters(),
+		What:      "all schedules of Persist + reader (Get, Seek, SeekAsync) + writer (Put, Delete, PutChangeSet, PersistPrivate of 1-3 private layers) threads on one shared MemCachedStore up to the preemption bound; every history checked for linearizability (porcupine v1.3.0) against an ordered map (Seek = atomic range read, SeekAsync = atomic range read within the SeekAsync CALL, PutChangeSet = atomic multi-write, PersistPrivate(p1, p2, ...) = ONE atomic multi-write, Persist = no-op) and, for what reaches the lower stores, against the set of unflushed changes (a Persist hands down exactly the layer's set of one moment)",
 		Assumptions: []string{
 			"cooperative scheduling: interleavings are explored at mutex operations only (the package has no other synchronisation); unsynchronised accesses are covered by the separate -race part",
 			"only combinations the doc comments allow: shared (non-private) MemCachedStore, any of Get/Put/Delete/PutChangeSet/Seek concurrent with Persist, concurrent Persist calls (plock)",
 			"SeekAsync (round 3): the overlay turns its go statement into a logical thread, so the scan goroutine is schedule-explored (start, lock operations of the lower store); its unbuffered result channel stays a real channel and is drained by a free-running helper goroutine that touches nothing of the subject, so receives are no scheduling points. The operation of the history is the SeekAsync call (the layer's own content is fixed when it returns); for the per-key reading every key is read between the call and the end of the drain. A scan whose result no single moment of its call explains is reported as scan-not-for-the-moment-of-the-call:* when the scenario has no write+flush pair (the only known way into the lower store, key seek-not-atomic:*)",
 			"RWMutex writer preference is not modelled",
+			"round 4, PersistPrivate: the private layers are created over the shared layer and filled by the publishing thread itself right before the call (a private layer has no locks, so this adds no scheduling points); the count PersistPrivate returns is not judged. Scenarios pp-dao*: the shared layer is dao.NewSimple(...).Store, the private layers dao.GetPrivate(), published by dao.Simple.PersistPrivate - dao's own nativeCacheLock stays a REAL lock under this overlay, which is sound only because a single thread of the scenario ever takes it",
+			"round 4: the thorough-only scenario pp3-two-layers-mixed (5 threads, two shared layers, both key classes) is explored up to preemption bound 3, all others up to the tier's bound",
+			"round 4, flush oracle: a recording hook store (no synchronisation towards the subject) sits below every shared layer; a changeset is attributed to the Persist in progress on the goroutine that delivers it (Persist calls the lower PutChangeSet synchronously). A Persist is judged as two events: capture (call .. entry of the lower PutChangeSet) must equal the layer's unflushed set of one moment with every PutChangeSet / PersistPrivate applied as a whole; delivery (the lower PutChangeSet call) adds it to the middle layer's set in two-layer stacks. Reads are not part of this model (they keep their own two)",
 		},
 	})
 }
